@@ -142,8 +142,11 @@ def pair_classes(a, b):
             cls |= pair_classes(k1, k2) | pair_classes(v1, v2)
             if is_num(k1) and is_num(k2) and (k1[0] == "f") != (k2[0] == "f") and etf.erl_cmp(etf.denote(k1), etf.denote(k2)) == 0:
                 cls.add("C12-map-key-exact")
-        if any(pair_classes(k1, k2) for (k1, _), (k2, _) in itertools.combinations(a[1], 2)) or any(pair_classes(k1, k2) for (k1, _), (k2, _) in itertools.combinations(b[1], 2)):
-            cls.add("C12-map-key-order")
+        # two keys of ONE map that fall in a deviation class (the lossy comparison identifies 2^53.0 and 2^53+1, say):
+        # the map the library holds has fewer entries or another key order than the value, for the same reason
+        for m in (a, b):
+            for (k1, _), (k2, _) in itertools.combinations(m[1], 2):
+                cls |= pair_classes(k1, k2)
     if ka == "u" and kb == "u":
         for x, y in zip(a[9], b[9]):
             cls |= pair_classes(x, y)
